@@ -750,6 +750,21 @@ def generate(ctx):
         depth = [rng.randint(0, 2) for _ in range(nd)]
         chunks = [_chunks_at_least(rng, rng.randint(max(1, dd), 7), max(1, dd)) for dd in depth]
         yield "ovb", {"chunks": chunks, "depth": depth, "boundary": bnd}
+    if thorough:
+        # exhaustive small spaces: every chunking of n <= 6 whose chunks are >= depth x every boundary kind; every
+        # chunking of n <= 8 whose chunks are >= window - 1 x every window
+        for n in range(1, 7):
+            for c in compositions(n):
+                for dep in (1, 2):
+                    if min(c) < dep:
+                        continue
+                    for b in ("periodic", "reflect", "nearest", 0):
+                        yield "ovb", {"chunks": [list(c)], "depth": [dep], "boundary": [b]}
+        for n in range(1, 9):
+            for c in compositions(n):
+                for w in range(1, 5):
+                    if w <= n and min(c) >= w:
+                        yield "swvblocks", {"chunks": [list(c)], "window": w, "axis": 0}
     # sliding_window_view block by block
     for _ in range(ctx.n(70, 1000)):
         nd = rng.randint(1, 2)
